@@ -383,6 +383,7 @@ class State:
         self.notes = []
         self.fresh = [0]
         self.path = None
+        self.call_cache = {}
 
     def clone(self):
         s = State()
@@ -395,6 +396,7 @@ class State:
         s.notes = list(self.notes)
         s.fresh = self.fresh
         s.path = self.path
+        s.call_cache = dict(self.call_cache)
         return s
 
     def new_name(self, base):
@@ -455,9 +457,10 @@ class SymExec:
       * inline(func) -> bool      whether a resolved repo callee is inlined
     """
 
-    def __init__(self, repo: Repo, loop_iters=(0, 1, 2), max_depth=4, exc_edges=False):
+    def __init__(self, repo: Repo, loop_iters=(0, 1, 2), max_depth=4, exc_edges=False, per_loop=None):
         self.repo = repo
         self.loop_iters = loop_iters
+        self.per_loop = per_loop
         self.max_depth = max_depth
         self.exc_edges = exc_edges
         self.unknown_log = []
@@ -480,7 +483,7 @@ class SymExec:
     # ------------------------------------------------------------------ running
 
     def paths_of(self, func: Func):
-        return PathEnum(self.loop_iters, exc_edges=self.exc_edges).function_paths(func.node)
+        return PathEnum(self.loop_iters, exc_edges=self.exc_edges, per_loop=self.per_loop).function_paths(func.node)
 
     def run_function(self, func: Func, st: State, args: dict, depth=0, keep_raise=False):
         """Run every path of `func` from state `st` with parameter bindings `args`.
@@ -509,7 +512,7 @@ class SymExec:
     def run_block(self, stmts, st: State, func: Func, depth=0, loop_iters=None):
         """Run a statement list from `st` (cloned per path).  -> list of States whose
         `.status` is run (fell through) / return / raise / break / continue."""
-        pe = PathEnum(loop_iters or self.loop_iters, exc_edges=self.exc_edges)
+        pe = PathEnum(loop_iters or self.loop_iters, exc_edges=self.exc_edges, per_loop=self.per_loop)
         out = []
         for p in pe.block(stmts):
             s = st.clone()
@@ -535,6 +538,81 @@ class SymExec:
         return states
 
     def event(self, ev: Ev, st: State, func: Func, depth):
+        k = ev.kind
+        if k in ("stmt", "cond", "return") and not (k == "stmt" and isinstance(ev.node, ast.Expr) and isinstance(ev.node.value, ast.Call)):
+            root = ev.node if k != "return" else ev.node.value
+            if root is not None and not isinstance(root, ast.FunctionDef | ast.ClassDef):
+                forks = self.prefork(root, st, func, depth)
+                if forks is not None:
+                    out = []
+                    for s2 in forks:
+                        out.extend(self.event(ev, s2, func, depth))
+                    return out
+                res = self._event(ev, st, func, depth)
+                if st.call_cache:
+                    ids = {id(c) for c in ast.walk(root) if isinstance(c, ast.Call)}
+                    for r in res:
+                        for i in ids:
+                            r.call_cache.pop(i, None)
+                return res
+        return self._event(ev, st, func, depth)
+
+    _npaths_cache = {}
+
+    def _n_paths(self, f: Func) -> int:
+        key = (id(self.repo), f.qualname, self.loop_iters)
+        if key not in SymExec._npaths_cache:
+            try:
+                SymExec._npaths_cache[key] = len([p for p in self.paths_of(f) if p.status == "return"])
+            except AnalysisError:
+                SymExec._npaths_cache[key] = 1
+        return SymExec._npaths_cache[key]
+
+    def prefork(self, root, st: State, func: Func, depth):
+        """A call (in expression position) of a multi-path repo callee forks the state: the callee is run
+        on every path and its return value is cached for the enclosing statement.  -> list of states | None"""
+        if depth >= self.max_depth:
+            return None
+        calls = [c for c in ast.walk(root) if isinstance(c, ast.Call) and id(c) not in st.call_cache]
+        calls.sort(key=lambda c: (c.end_lineno, c.end_col_offset))
+        for c in calls:
+            if not isinstance(c.func, ast.Attribute | ast.Name):
+                continue
+            if any(isinstance(a, ast.Lambda | ast.GeneratorExp | ast.ListComp) and any(x is c for x in ast.walk(a)) for a in ast.walk(root) if a is not c):
+                continue  # inside a lambda / comprehension: not evaluated here
+            try:
+                if self._callee_class(c, st, func) is not None:
+                    continue
+                targets, _, precise = self.resolve(c, st, func)
+            except AnalysisError:
+                continue
+            if len(targets) != 1 or not precise:
+                continue
+            t = targets[0]
+            if not self.inline(t) or t.is_property or self._n_paths(t) < 2 or any(isinstance(x, ast.Yield | ast.YieldFrom) for x in ast.walk(t.node)):
+                continue
+            b = self.bind_args(c, t, st, func, depth)
+            if b is None:
+                continue
+            finals = self.run_function(t, st, b, depth + 1)
+            if len(finals) > 64:
+                continue
+            out = []
+            for r in finals:
+                r.status = "run"
+                r.call_cache = dict(st.call_cache)
+                r.call_cache[id(c)] = r.ret if r.ret is not None else Const(None)
+                r.ret = st.ret
+                r.path = st.path
+                out.append(r)
+            if not out:
+                s2 = st.clone()
+                s2.status = "infeasible"
+                return [s2]
+            return out
+        return None
+
+    def _event(self, ev: Ev, st: State, func: Func, depth):
         k = ev.kind
         if k == "stmt":
             return self.stmt(ev.node, st, func, depth)
@@ -1059,6 +1137,8 @@ class SymExec:
         return Slice(obj, lo, hi, step)
 
     def e_Call(self, n, st, func, depth):
+        if id(n) in st.call_cache:
+            return st.call_cache[id(n)]
         fval = self.eval(n.func, st, func, depth) if not isinstance(n.func, ast.Name) or n.func.id in st.env else None
         args = []
         for a in n.args:
@@ -1271,7 +1351,10 @@ class SymExec:
                 g.log.append(("pop", i, el, None, n))
                 st.effects.append(("list-pop", n, (g.name, i, el)))
                 return el
-        g.log.append((attr + "?", None, None, None, n))
+        if attr == "pop" and args and isinstance(args[0], Lin) and args[0].is_const():
+            g.log.append(("pop-nonterminal", int(args[0].c), None, None, n))
+        else:
+            g.log.append((attr + "?", None, None, None, n))
         st.effects.append(("list-op-unknown", n, (g.name, attr, args)))
         g.total = Lin.atom(st.new_name(f"ΣL({g.name})?"))
         g.count = Lin.atom(st.new_name(f"len({g.name})?"))
